@@ -13,7 +13,9 @@
 
   Circuits, post-selections and noise models are *symbols* (an identifier plus, for the first two,
   the mode relabelling applied by processor composition): what the symbol denotes (a matrix, a
-  predicate on states) is checked by the correspondence on the real objects.  Python dictionaries
+  predicate on states) is checked by the correspondence on the real objects.  A change of the
+  processor's circuit between two requests (`P.set_value` on a parameter = `retune`, `set_circuit`
+  through the processor or its experiment, `add` of a component) gives the circuit a new symbol.  Python dictionaries
   are association lists with Python's `d[k] = v` semantics (`dset`: overwrite in place or append).
 -/
 
